@@ -98,6 +98,22 @@ def run_case(job):
         locs = [{"wght": p_} for p_ in positions]
     docs = gen_masters(rng, nmasters)
     upem = rng.choice([1000, 1024])
+    eps, slack = 2.5, 2.0
+    metrics = None
+    if variant == "half-unit-grid":
+        # whole-number coordinates in a 128 viewBox at the default metrics land on k.5 font units: static build, master
+        # UFOs and the variation data must round them the same way (straight lines only: no curve conversion involved)
+        nmasters, default_idx = 3, 1
+        axes, names = [("wght", "Weight")], ["light", "regular", "heavy"]
+        locs = [{"wght": 100}, {"wght": 400}, {"wght": 900}]
+        # x = 8k with k odd gives 75k + 37.5, an even whole part; y = 4j with 950 - 37.5j likewise: round-half-even and
+        # round-half-up (otRound) differ exactly there
+        docs = []
+        for x0, x1, y0, y1, tx in ((40, 72, 52, 84, 88), (24, 88, 36, 100, 104), (8, 104, 20, 116, 120)):
+            docs.append(['<svg xmlns="http://www.w3.org/2000/svg" viewBox="0 0 128 128"><path d="M%d,%d L%d,%d L%d,%d L%d,%d Z" fill="#cc0000"/><path d="M%d,%d L%d,%d L%d,%d Z" fill="#0000cc"/></svg>'
+                         % (x0, y0, x1, y0, x1, y1, x0, y1, 56, 20, tx, 52, 72, y1)])
+        upem, eps, slack = 1024, 0.01, 1.0  # intermediate instances are rounded to whole units by the instancer
+        metrics = 'color_format = "glyf_colr_1"\nreuse_tolerance = -1.0\nclipbox_quantization = 1\n'  # everything else at its default
     res = dict(case=i, variant=variant, masters=nmasters, positions=[tuple(l.values()) for l in locs], default=tuple(locs[default_idx].values()), sources=[d[0] for d in docs])
 
     def axis_toml(default_loc):
@@ -112,6 +128,8 @@ def run_case(job):
             for k, text in enumerate(md):
                 (d / names[m] / f"emoji_u{0x1F600 + k:x}.svg").write_text(text)
         common_opts = f'color_format = "glyf_colr_1"\nupem = {upem}\nascender = {int(upem * 0.8)}\ndescender = {-int(upem * 0.2)}\nwidth = {upem}\nreuse_tolerance = -1.0\n'
+        if metrics is not None:
+            common_opts = metrics
         vf = common_opts + 'output_file = "VF.ttf"\n' + axis_toml(locs[default_idx]) + "".join(master_toml(m) for m in range(nmasters))
         (d / "vf.toml").write_text(vf)
         rc, out = build.run_cli(["--build_dir", d / "build_vf", d / "vf.toml"], cwd=d)
@@ -151,7 +169,7 @@ def run_case(job):
         # the default location, without instancing, is the default master
         for cp, (g, pic, p1, adv) in glyph_pictures(vfont).items():
             sg, spic, p2, sadv = statics[default_idx][cp]
-            pp = p1 + p2 + picture.compare_pictures(spic, pic, eps=2.5, palette_check=False)
+            pp = p1 + p2 + picture.compare_pictures(spic, pic, eps=eps, palette_check=False, use_slack=eps > 1)
             if adv != sadv:
                 pp.append(f"advance {adv} != static {sadv}")
             probs += [f"default location (not instanced) vs master {names[default_idx]}, U+{cp:X}: {x}" for x in pp[:2]]
@@ -170,7 +188,7 @@ def run_case(job):
             got = glyph_pictures(inst)
             for cp, (g, pic, p1, adv) in got.items():
                 sg, spic, p2, sadv = statics[m][cp]
-                pp = p1 + p2 + picture.compare_pictures(spic, pic, eps=2.5, palette_check=False)
+                pp = p1 + p2 + picture.compare_pictures(spic, pic, eps=eps, palette_check=False, use_slack=eps > 1)
                 if adv != sadv:
                     pp.append(f"advance {adv} != static {sadv}")
                 cb = clip_box_at(vfont, g, dict(locs[m]))
@@ -198,7 +216,7 @@ def run_case(job):
                     probs.append(f"{loc}: no clip box for {g}")
                     continue
                 x0, y0, x1, y1 = min(p[0] for p in pts), min(p[1] for p in pts), max(p[0] for p in pts), max(p[1] for p in pts)
-                if x0 < b[0] - 2 or y0 < b[1] - 2 or x1 > b[2] + 2 or y1 > b[3] + 2:
+                if x0 < b[0] - slack or y0 < b[1] - slack or x1 > b[2] + slack or y1 > b[3] + slack:
                     probs.append(f"{loc}: clip box {tuple(round(v, 1) for v in b)} cuts geometry {(round(x0), round(y0), round(x1), round(y1))} of {g}")
         res["problems"] = probs
         return res
@@ -306,6 +324,7 @@ def main(argv):
         jobs.append((i, rng.randrange(10**9), nm, rng.randrange(nm)))
     jobs.append((n, rng.randrange(10**9), 2, 0, "slant"))
     jobs.append((n + 1, rng.randrange(10**9), 3, 0, "two-axes"))
+    jobs.append((n + 2, rng.randrange(10**9), 3, 1, "half-unit-grid"))
     with ThreadPoolExecutor(max_workers=4) as ex:
         results = list(ex.map(run_case, jobs))
     for r in results:
